@@ -3,8 +3,9 @@
 
    Reading guide.  A history is a list of events: [EStep i] (a step of the engine: step number, relative step,
    repeated-step flag, the values of the variables, each a list of components), [ESave] (the state is written),
-   [ERestart None] (the state is written and read by a fresh instance with the same configuration) or
-   [ERestart (Some g)] (the same with rebinGrids on and the new grid boundaries g).
+   [ERestart None] (the state is written and read by a fresh instance with the same configuration),
+   [ERestart (Some g)] (the same with rebinGrids on and the new grid boundaries g) or [EReload] (the state is written
+   and read back by the same instance, which already holds hills).
    [final_state Rops c hist] is the state of the model of colvarbias_meta after the history;
    [out_energy c hist i] / [out_force c hist i k] are the energy and the force on variable k (a list of components)
    that update() returns at the next step i.  The specification keeps only the list of hills deposited so far,
@@ -22,9 +23,10 @@
    Premises: [cfg_ok c] (positive sigmas and widths, sigma = width*hillWidth/2 when hillWidth is given; with grids:
    scalar variables, upper = lower + nx*width, no expandBoundaries on a periodic variable) and [history_ok c hist]:
    with grids, every step has one value per variable, not beyond a boundary declared hard and not beyond a grid that
-   covers part of the range of a periodic variable ([adm]), and a rebinning restart happens with keepHills, onto
-   well-formed boundaries, with every hill at least min_buffer bins inside the expandable edges of the new grid
-   ([rebin_ok]; vacuous without expandBoundaries).  Nothing is assumed without grids.  [plain_history_ok]: a list of
+   covers part of the range of a periodic variable ([adm]), and a rebinning restart happens onto well-formed
+   boundaries, either with keepHills (grids recomputed from the hills) and every hill at least min_buffer bins inside
+   the expandable edges of the new grid (vacuous without expandBoundaries), or without keepHills (old grids mapped
+   onto the new ones) onto the current grids extended by whole bins where expandBoundaries allows ([rebin_ok]).  Nothing is assumed without grids.  [plain_history_ok]: a list of
    admissible steps, saves and plain restarts is such a history.
    All statements hold for the code with the six `fix:` commits of branch fix-C05 (known_findings.txt); the
    witnesses of the defects they repair are replayed by props/C05/check.py. *)
@@ -186,3 +188,8 @@ Example C05_premises_satisfiable_ebmeta :
   cfg_ok e_cfg /\ history_ok e_cfg [EStep w_i1; EStep w_i2] /\ c_eb e_cfg = true /\ c_wt e_cfg = true /\
   eligible e_cfg w_i1 = true /\ eb_factor e_cfg w_i1 = (3 / 4)%R.
 Proof. exact e_example. Qed.
+
+Example C05_premises_satisfiable_reload_rebin_from_grids :
+  cfg_ok n_cfg /\ history_ok n_cfg [EStep w_i1; EReload; ERestart (Some n_g); EStep w_i1] /\
+  c_keep n_cfg = false /\ existsb (@v_expand R) (c_vars n_cfg) = true.
+Proof. exact n_example. Qed.
